@@ -191,6 +191,41 @@ pub fn c03(p: &Params) -> Outcome {
                 g.extend(rng.bytes(40));
                 c03_check(ctx, &g, "length_field_perturbed_with_tail");
             }
+            // CRC-state corner: the payload carries, at offset j, the CRC-24Q of everything
+            // before it, which drives the checksum register to zero mid-frame (and keeps it
+            // there over following zero bytes) -- the state in which table-driven / sliced
+            // implementations take shortcuts
+            if l >= 4 && (l <= 48 || kind == 2) {
+                let js: Vec<usize> = if l <= 48 { (0..=l - 3).collect() } else { (0..24).map(|_| rng.usize_below(l - 3 + 1)).collect() };
+                for j in js {
+                    let mut pl = payload.clone();
+                    let mut pre = vec![0xD3u8, ((l >> 8) & 3) as u8, l as u8];
+                    pre.extend_from_slice(&pl[..j]);
+                    let c = crc::crc24q(&pre);
+                    pl[j] = (c >> 16) as u8;
+                    pl[j + 1] = (c >> 8) as u8;
+                    pl[j + 2] = c as u8;
+                    let zeros = rng.usize_below(6);
+                    for b in pl.iter_mut().skip(j + 3).take(zeros) {
+                        *b = 0;
+                    }
+                    let g = crc::frame(&pl);
+                    c03_check(ctx, &g, "crc_register_driven_to_zero");
+                    // and the same body with the checksum of the body *without* those bytes
+                    // (what a skipping implementation would compute): must be rejected
+                    let mut short = pre.clone();
+                    short.extend_from_slice(&pl[(j + 3 + zeros.min(1)).min(l)..]);
+                    let wrong = crc::crc24q(&short);
+                    let n = g.len();
+                    let mut h = g.clone();
+                    h[n - 3] = (wrong >> 16) as u8;
+                    h[n - 2] = (wrong >> 8) as u8;
+                    h[n - 1] = wrong as u8;
+                    if h != g {
+                        c03_check(ctx, &h, "crc_register_driven_to_zero_wrong_trailer");
+                    }
+                }
+            }
             // one payload bit flipped
             if l > 0 {
                 for _ in 0..8 {
